@@ -18,7 +18,7 @@ CONFLUENT = [
     wl("chain3"), wl("diamond"), wl("multitask"), wl("diamond_multitask"), wl("fail_mid"), wl("raise_mid"),
     wl("continue_on_fail"), wl("skip_stage"), wl("poll", 1), wl("poll", 2), wl("transient", 1, True),
     wl("transient", 1, False), wl("or_split_join"), wl("jump_self", 1), wl("jump_cycle", 2, 1), wl("jump_cycle", 2, 2),
-    wl("jump_cycle", 3, 1), wl("jump_forward_diamond", 1), wl("jump_side_fanin", 1), wl("synthetic"), wl("synthetic2"),
+    wl("jump_cycle", 3, 1), wl("jump_forward_diamond", 1), wl("jump_side_fanin", 1), wl("synthetic"), wl("synthetic2"), wl("synthetic_raise"),
     wl("multitask_fail", 0), wl("multitask_fail", 1),
 ]
 RACY = [wl("fail_branch"), wl("first_of"), wl("quorum"), wl("multi_merge")]
